@@ -30,6 +30,9 @@ uninterp spec fn op_byte(op: Op) -> u8;
 #[verifier::external_body]
 fn op_as_u8(op: Op) -> (r: u8) ensures r == op_byte(op) { unimplemented!() }
 
+#[verifier::external_body] struct AstIndex { _p: u8 }
+#[verifier::external_body] struct CompileNodeContext { _p: u8 }
+#[verifier::external_body] struct CompileNodeOutput { _p: u8 }
 struct Loop { jump_placeholders: Vec<usize> }
 // the compile frame's loop stack (proved in V-frame: pop_loop pops the innermost loop)
 struct FrameLoops { loops: Vec<Loop> }
@@ -47,6 +50,14 @@ impl Compiler {
             r is Ok <==> old(self).frame.loops@.len() > 0,
             r matches Ok(l) ==> l == old(self).frame.loops@.last() && final(self).frame.loops@ == old(self).frame.loops@.drop_last(),
             r matches Err(e) ==> e.outside_loop() && final(self).frame.loops@ == old(self).frame.loops@,
+    { unimplemented!() }
+
+    // assumed contract of the recursive code generator (compile_node, 5000 lines): it only APPENDS
+    // code (it may patch placeholders inside what it appended, never the code that was there before)
+    #[verifier::external_body]
+    fn compile_node(&mut self, node_index: AstIndex, ctx: CompileNodeContext) -> (r: Result<CompileNodeOutput>)
+        ensures final(self).bytes@.len() >= old(self).bytes@.len(),
+                final(self).bytes@.take(old(self).bytes@.len() as int) == old(self).bytes@,
     { unimplemented!() }
 
     // a forward jump operand at p lands at `target` (the VM adds the offset to the ip after the operand)
@@ -106,6 +117,14 @@ UNIT = Unit(
                     && final(self).bytes@[old(self).bytes@.len() as int] == op_byte(op)
                     && end - u16_le(final(self).bytes@[end - 2], final(self).bytes@[end - 1]) == target_ip)   // @lands_on_target
            &&& (r matches Err(e) ==> e.jump_too_large() && final(self).bytes@ == old(self).bytes@) }),   // @error_emits_nothing
+"""),
+        Fn(F, "impl Compiler :: fn compile_node_with_jump_offset", props=P, impl_as="impl Compiler", spec=r"""
+    requires old(self).bytes@.len() < 0x4000_0000_0000_0000,
+    ensures
+        // a conditional jump over a node (if / and / or / loop conditions) lands exactly on the first
+        // instruction after the node's code, whatever the node compiled to
+        r is Ok ==> Self::lands(final(self).bytes@, old(self).bytes@.len() as int, final(self).bytes@.len() as int),   // @jump_lands_right_after_the_node
+        r is Ok ==> final(self).bytes@.take(old(self).bytes@.len() as int) == old(self).bytes@,          // @earlier_code_untouched
 """),
         Fn(F, "impl Compiler :: fn pop_loop_and_update_placeholders", props=P, impl_as="impl Compiler",
            subst=[("""        let loop_info = self
